@@ -3,7 +3,8 @@
 // every half clock cycle.
 //
 //   tb_run <cases.ndjson> <out.ndjson>
-// case: {"id":..,"bin":"<path>","input":"<hex>","seed":N,"plant":K,"maxcycles":M,"log":0|1}
+// case: {"id":..,"bin":"<path>","input":"<hex>","seed":N,"plant":K,"maxcycles":M,"log":0|1,"loadonly":0|1}
+//   loadonly: only load() is called; the record is {"id","seed","words":[..]} - the memory words covering the file's payload
 //   seed  : Verilator randomisation seed (randReset(2)): every register and memory word outside the
 //           image starts with a seed-dependent value
 //   plant : 0 none; otherwise an adversarial power-on state is planted AFTER load(), i.e. into the
@@ -66,6 +67,17 @@ int main(int argc, const char **argv) {
     load(bin.c_str(), top);
     std::string banner = cap.str();
     auto &mem = top->hex->u_memory->memory_q;
+    if (jnum(line, "loadonly", 0)) {
+      // loader conformance: the words that cover everything the file holds after its header, as load() left them
+      std::ifstream bf(bin, std::ios::binary | std::ios::ate);
+      long fsz = (long)bf.tellg(), nw = fsz > 4 ? (fsz - 4 + 3) / 4 : 0;
+      std::cout.rdbuf(cout0); std::cin.rdbuf(cin0);
+      fprintf(out, "{\"id\":\"%s\",\"seed\":%ld,\"words\":[", id.c_str(), seed);
+      for (long i = 0; i < nw; i++) fprintf(out, "%s%d", i ? "," : "", (int)mem[i]);
+      fprintf(out, "]}\n");
+      fflush(out);
+      continue;
+    }
     auto *P = top->hex->u_processor;
     std::vector<std::pair<unsigned, unsigned>> junk;
     unsigned sp = mem[1];
